@@ -137,6 +137,19 @@ func init() {
 				*dp = sliceOfStr(src.V.(Str))
 			case isStringType(et) && isStringType(src.T):
 				*dp = src.V
+			case isIntegerType(et) && isIntegerType(src.T):
+				// database/sql converts through the decimal text and fails when the value does not fit
+				sv := src.V.(*Term)
+				sw, ss := intWidthSigned(src.T)
+				dw, ds := intWidthSigned(et)
+				if !(dw > sw || (dw == sw && ds == ss)) || (ss && !ds) {
+					m.unsupported("sql.Rows.Scan of %s into *%s (possible range error)", src.T, et)
+				}
+				if ss {
+					*dp = Sext(sv, dw)
+				} else {
+					*dp = Zext(sv, dw)
+				}
 			default:
 				m.unsupported("sql.Rows.Scan of %s into *%s", src.T, et)
 			}
@@ -201,4 +214,23 @@ func init() {
 		out := m.call(fr, token.NoPos, m.jsonAppendString(), []Value{[]Value(nil), v.V, TTrue})
 		return Tuple{out, Iface{}}
 	})
+}
+
+func isIntegerType(t types.Type) bool {
+	b, ok := t.Underlying().(*types.Basic)
+	return ok && b.Info()&types.IsInteger != 0
+}
+
+func intWidthSigned(t types.Type) (int, bool) {
+	b := t.Underlying().(*types.Basic)
+	signed := b.Info()&types.IsUnsigned == 0
+	switch b.Kind() {
+	case types.Int8, types.Uint8:
+		return 8, signed
+	case types.Int16, types.Uint16:
+		return 16, signed
+	case types.Int32, types.Uint32:
+		return 32, signed
+	}
+	return 64, signed
 }
